@@ -312,6 +312,18 @@ impl World for CnfWorld {
                     got.sort();
                     let want: Vec<(usize, bool)> = (0..nv).filter_map(|v| pm_ref[v].map(|b| (v, b))).collect();
                     ctx.check("C15", "model-assignment-iter", got == want, || format!("assignment_iter yields {:?}, reference {:?}", got, want))?;
+                    // equality is set equality, whatever the history of the object
+                    let rebuilt = PartialModel::from_assignments(&pm_ref);
+                    ctx.check("C15", "model-equality", pm == rebuilt && rebuilt == pm, || format!("a PartialModel with contents {:?} does not compare equal to a freshly built one with the same contents", pm_ref))?;
+                    let lits: Vec<Literal> = want.iter().map(|(v, b)| lit(*v, *b)).collect();
+                    let via_lits = PartialModel::from_litvec(&lits, nv);
+                    ctx.check("C15", "model-equality", via_lits == pm, || format!("from_litvec({:?}) differs from the model with the same contents", want))?;
+                    if pm_ref.iter().all(|x| x.is_some()) {
+                        let total: Vec<bool> = pm_ref.iter().map(|x| x.unwrap()).collect();
+                        ctx.check("C15", "model-equality", PartialModel::from_total_model(&total) == pm, || "from_total_model differs from the model with the same contents".to_string())?;
+                    }
+                    let same_sets = vs_ref[0] == vs_ref[1];
+                    ctx.check("C15", "varset-equality", (vs[0] == vs[1]) == same_sets, || format!("VarSets {:?} and {:?}: == gives {}", vs_ref[0], vs_ref[1], vs[0] == vs[1]))?;
                     // difference against the hasher-side model
                     let other = PartialModel::from_assignments(&model);
                     let mut gd: Vec<(usize, bool)> = pm.difference(&other).map(|l| (l.label().value_usize(), l.polarity())).collect();
